@@ -179,11 +179,9 @@ def gen_chart_data(r: random.Random, kind: str, max_series=6, max_points=8, min_
             npts = r.choice([0, 1, 2, 3, r.randint(0, max_points)])
             pts = []
             for _ in range(npts):
-                x, y = _num(r), _num(r)
-                x = 0 if x is None else x
-                y = 0 if y is None else y
+                x, y = _num(r), _num(r)     # None = a gap in the X or in the Y column (documented for data points)
                 if kind == "bubble":
-                    pts.append([x, y, abs(r.choice([1, 2, 10, 0.5, r.randint(0, 30)]))])
+                    pts.append([x, y, r.choice([1, 2, 10, 0.5, r.randint(0, 30), None])])
                 else:
                     pts.append([x, y])
             s = {"name": _label(r, 12), "points": pts}
